@@ -128,3 +128,11 @@ func copyCase(c Case) Case {
 	}
 	return res
 }
+
+func ones(k int) []int {
+	w := make([]int, k)
+	for i := range w {
+		w[i] = 1
+	}
+	return w
+}
